@@ -45,10 +45,15 @@ func (s *subscriptionsState) mergeSubscriptions(subscriptions []*api.Subscriptio
 }
 
 func (s *subscriptionsState) dump(event *api.StateBroadcastEvent) {
-	subscriptions := s.All()
-	for _, subscription := range subscriptions {
-		event.Subscriptions = append(event.Subscriptions, &subscription)
-	}
+	s.mu.Lock()
+	defer s.mu.Unlock()
+	// removed entries are part of the state too: a peer that missed the removal learns it here
+	s.subscriptions.Iterate(func(b []byte) {
+		local := &api.SubscriptionList{}
+		if proto.Unmarshal(b, local) == nil {
+			event.Subscriptions = append(event.Subscriptions, local.Subscriptions...)
+		}
+	})
 }
 
 func (s *subscriptionsState) Create(sessionID string, pattern []byte, qos int32) error {
